@@ -19,7 +19,7 @@ CONFIG = {
                    "gives two admissible codes (diff with additions and removals) both are accepted; reported names are "
                    "compared modulo surrounding blanks because the log format separates fields by runs of blanks."),
     "technique": "deterministic simulation: seeded histories + fault sets; exit-code and reported-path oracle from snapshot differences",
-    "quick": {"runs": 960, "budget_s": 90},
+    "quick": {"runs": 1200, "budget_s": 120},
     "thorough": {"runs": 6000, "budget_s": 540},
     "rule": ("one run = sealed world + mutation set, three commands on three copies; one evaluation = one judged command. "
              "Distinct = (command, classes of differences present content/removed-file/removed-dir/added/none, nested depth of "
